@@ -30,6 +30,12 @@ Families:
            refresh(), clear(), reads of max_index / num_binary_variables / variables / degree, interleaved with
            anneal_* calls on the same object; every C call of the history is recorded and judged like an `api` call
            (stale bookkeeping such as a cached size that sizes the C buffers too small shows up here).
+  swap     (a kind of `objhist`) several rounds on ONE object: anneal, REPLACE the variable set in place, anneal again.  The new
+           set is drawn from a grid — same number of variables / more / fewer x larger / smaller / equal maximum label, always
+           other labels — and installed by clear() + refill, by cancelling every term (+ refresh()) + refill, by `*= 0` + refill,
+           or by `H *= {monomial: c}` (spin types: the product IS the relabelled term); all four annealers, the four Matrix
+           types and the six labelled types.  A size, maximum, count or enumeration remembered from the first anneal (however it
+           is keyed) meets another variable set in the second: an under-sized C buffer is an ASan report on that call.
   direct   calls of the private `c_anneal_*` with arguments *outside* WF, each in its own child: the model's
            `MemErr` is compared with the sanitizer's verdict (validates that the model's errors are real).
 
@@ -48,7 +54,9 @@ RULE = ("public-API calls of the four annealers under ASan+UBSan in one child pr
         "plus the same shapes with explicit schedules whose entries are int / bool / Fraction / Decimal / numpy scalars / __index__ "
         "objects equal to floats (each followed by the call with the equal float schedule under the same seed); "
         "plus histories on one model object (in-place growth, cancellation, *=, refresh, clear, bookkeeping reads, "
-        "several anneals; non-trivial = >= 2 C calls); "
+        "several anneals; non-trivial = >= 2 C calls); plus histories that replace the variable set of one object in place between "
+        "anneals (same / more / fewer variables x larger / smaller / equal maximum label; by clear, cancellation (+ refresh), *= 0, "
+        "*= monomial) on Matrix and labelled types, several rounds; "
         "non-trivial = the call reached the C kernel with N>=2, >=1 coupling of degree>=2 and a non-empty schedule; "
         "distinct = distinct case JSON")
 ASSUMPTIONS = [
@@ -688,6 +696,104 @@ def fixed_objhist():
         out.append({"family": "objhist", "kind": kind, "labels": "int", "num": "int", "steps": steps})
     return out
 
+SPIN_KINDS = {"PUSOMatrix", "QUSOMatrix", "PUSO", "QUSO", "PCSO"}
+
+def gen_swaphist(rng, big=False):
+    """family `swap` (a kind of `objhist`): several rounds on ONE object — anneal, then REPLACE the variable set in place, then
+    anneal again.  The replacement V -> V' is drawn from a grid: number of variables (same / more / fewer) x maximum label
+    (larger / smaller / same), always with other labels than before, and carried out in one of the ways the API offers:
+    clear() + refill; cancelling every term (`H[k] -= H[k]`: the entries go, the bookkeeping stays) + refresh() + refill;
+    cancelling without refresh; `H *= 0` + refill; `H *= {key: c}` (spin types: the product with a monomial over V xor V' IS
+    the relabelled term; boolean types: it adds labels).  Whatever the object remembers from the first anneal (sizes, maxima,
+    counts, enumerations, a cache keyed on anything that happens to coincide) meets a different variable set in the second."""
+    kind = rng.choice(["PUSOMatrix"] * 4 + ["QUSOMatrix"] * 3 + ["PUBOMatrix"] * 2 + ["QUBOMatrix"] * 2 +
+                      ["PUSO", "QUSO", "PCSO", "PUBO", "QUBO", "PCBO"])
+    fns = HIST_KINDS[kind]
+    deg2 = kind in c11.DEG2
+    matrix = kind in c11.MATRIX
+    spin = kind in SPIN_KINDS
+    top = rng.randint(24, 48) if big else rng.randint(8, 20)
+    dom = list(range(top))
+    C = c11.COEFS
+    nmax = 4 if deg2 else 5
+
+    def cover(V):
+        """keys whose labels are exactly V (each label in one key)"""
+        V = list(V)
+        rng.shuffle(V)
+        if not deg2 and len(V) <= 5 and rng.random() < 0.6:
+            return [sorted(V)]
+        out, size = [], (2 if deg2 else 3)
+        while V:
+            n = rng.randint(1, size)
+            out.append(sorted(V[:n])); V = V[n:]
+        return out
+
+    def fill(keys):
+        return [{"op": rng.choice(["set", "iadd"]), "key": k, "v": rng.choice(C)} for k in keys]
+
+    def reads():
+        out = []
+        for a in rng.sample(["max_index", "num_binary_variables", "variables", "degree"], rng.randint(0, 2)):
+            if a != "max_index" or matrix:
+                out.append({"op": "read", "attr": a})
+        return out
+
+    n = rng.randint(1, nmax)
+    V = sorted(rng.sample(dom[:max(n, top // 2)], n))
+    keys = cover(V)
+    steps = fill(keys) + reads() + [_anneal_step(rng, rng.choice(fns), dom)]
+    grid = []
+    for _ in range(rng.randint(2, 4)):
+        cm = rng.choice(["same", "same", "same", "more", "fewer"])
+        mm = rng.choice(["larger", "larger", "smaller", "same"])
+        n2 = len(V) if cm == "same" else min(nmax + 1, len(V) + rng.randint(1, 2)) if cm == "more" else max(1, len(V) - 1)
+        mx = max(V)
+        if mm == "larger" and mx + 1 < top:
+            m2 = rng.randint(mx + 1, top - 1)
+        elif mm == "smaller" and mx > n2 - 1:
+            m2 = rng.randint(n2 - 1, mx - 1)
+        else:
+            m2 = mx
+        m2 = max(m2, n2 - 1)
+        below = [i for i in range(m2) if i not in V]
+        if len(below) < n2 - 1:
+            below = list(range(m2))
+        V2 = sorted(rng.sample(below, n2 - 1) + [m2])
+        way = rng.choice(["clear", "clear", "cancel+refresh", "cancel", "zero", "monomial"])
+        if way == "monomial" and not (len(keys) == 1 and (spin or set(V) < set(V2))):
+            way = "clear"
+        if way == "clear":
+            keys = cover(V2)
+            steps += [{"op": "clear"}] + fill(keys)
+        elif way in ("cancel+refresh", "cancel"):
+            steps += [{"op": "cancel", "key": k} for k in keys]
+            if way == "cancel+refresh":
+                steps.append({"op": "refresh"})
+            keys = cover(V2)
+            steps += fill(keys)
+            if way == "cancel" and rng.random() < 0.5:
+                steps.append({"op": "refresh"})
+        elif way == "zero":
+            steps.append({"op": "imul", "c": "0"})
+            if rng.random() < 0.5:
+                steps.append({"op": "refresh"})
+            keys = cover(V2)
+            steps += fill(keys)
+        else:
+            # one term over V times one monomial: spin labels met twice cancel, boolean labels merge
+            ko = sorted(set(V) ^ set(V2)) if spin else sorted(set(V2) - set(V))
+            steps.append({"op": "imul_poly", "terms": [[ko, rng.choice(["1", "-1", "2", "-3"])]]})
+            keys = [V2]
+        rel = lambda a, b, names: names[0] if a == b else names[1] if a > b else names[2]
+        grid.append("%s/%s/%s" % (way, rel(len(V2), len(V), ("same", "more", "fewer")), rel(max(V2), max(V), ("same", "larger", "smaller"))))
+        V = V2
+        steps += reads()
+        for fn in rng.sample(fns, rng.randint(1, len(fns))):
+            steps.append(_anneal_step(rng, fn, dom))
+    return {"family": "objhist", "shape": "swap", "kind": kind, "labels": "int" if matrix else rng.choice(c11.Labels.STYLES),
+            "num": rng.choice(["int", "frac", "float"]), "steps": steps, "grid": grid}
+
 def process_objhist(ctx, cases):
     items = list(enumerate(cases))
     hist, restarts = run_history(items, cap=ctx.scale(40, 150))
@@ -705,6 +811,10 @@ def process_objhist(ctx, cases):
         n_anneal = sum(1 for s in c["steps"] if s["op"] == "anneal")
         ctx.case(c, len(calls) >= 2)
         ctx.count("objhist:" + c["kind"])
+        if c.get("shape") == "swap":
+            ctx.count("objhist-swap")
+            for g in c.get("grid", []):
+                ctx.count("swap:" + g)
         ctx.count("objhist-C-calls", len(calls)); ctx.count("objhist-anneal-steps", n_anneal)
         for st in ((rec.get("api") or {}).get("steps") or []):
             if "err" in st:
@@ -717,7 +827,8 @@ def process_objhist(ctx, cases):
             pseudo = {"call": cl["call"], "out": cl["out"], "san": rec.get("san", "") if unfinished else ""}
             if unfinished and "died" in rec:
                 pseudo["died"] = rec["died"]
-            sub = dict(c, failing_step=cl["k"]) if unfinished else c
+            # (the history is reported up to the call that did not return)
+            sub = dict(c, steps=c["steps"][:cl["k"] + 1], failing_step=cl["k"]) if unfinished and cl["k"] is not None else c
             if judge(ctx, sub, pseudo, models.get((i, j))):
                 blamed = True
         if rep_case and not blamed:
@@ -770,6 +881,8 @@ def check(ctx):
     process(ctx, head + tail, ctx.scale(6, 40))
     hists = fixed_objhist() + [gen_objhist(rng) for _ in range(ctx.scale(70, 2500))]
     hists += [gen_objhist(rng, big=True) for _ in range(ctx.scale(10, 300))]
+    hists += [gen_swaphist(rng) for _ in range(ctx.scale(70, 2500))]
+    hists += [gen_swaphist(rng, big=True) for _ in range(ctx.scale(20, 600))]
     process_objhist(ctx, hists)
     process_direct(ctx, direct_cases(ctx.tier == "thorough"))
 
